@@ -357,7 +357,7 @@ func C15(p *ir.Program, r *report.R) {
 		okInc := false
 		for _, b := range rd.Blocks {
 			for _, in := range b.Instrs {
-				if ph, ok := in.(*ssa.Phi); ok && ph.Comment == "curr" {
+				if ph, ok := in.(*ssa.Phi); ok && ir.LocalName(ph.Parent(), ph.Comment) == "curr" {
 					var es []string
 					for _, e := range ph.Edges {
 						es = append(es, ir.Render(e))
